@@ -13,6 +13,12 @@ import Glom.Model.C15
     a non-iterable target    → FoldError
   plus: every evaluation's mutable result is a NEW object, and no pre-existing
   object changes.
+
+  `iterate` is the target's iteration AT THE TIME OF THE CALL: the handler the
+  registry's tables name for the target's class at that moment (`pureLk`, the
+  memo-free first-lookup answer — which registered type is nearest is C13's
+  subject), applied to the target.  A history is a list of evaluations and
+  `register(…)` calls; the reference keeps the tables only (no memo).
 -/
 namespace Glom.C15
 open Glom
@@ -29,12 +35,14 @@ instance decEqExcept {ε α : Type} [DecidableEq ε] [DecidableEq α] : Decidabl
 /-- `init()` as a value -/
 def initSV (h0 : Heap) : Init → Option SV
   | .int => some (.imm (.int 0))
+  | .float => some (.imm (.float "0000000000000000"))
   | .str => some (.imm (.str ""))
   | .list => some (.cell (.list "list" []))
   | .tuple => some (.cell (.tuple "tuple" []))
   | .dict => some (.cell (.dict "dict" []))
   | .odict => some (.cell (.dict "OrderedDict" []))
   | .acc => some (.cell (.list "Acc" []))
+  | .copyOf v => load h0 v          -- a NEW object holding what OBJ holds
   | .shared v => load h0 v
 
 /-- the value of `op(acc, v)` as `functools.reduce` sees it (what the call returns) -/
@@ -49,11 +57,11 @@ def mergeRet (acc : SV) : OpRes → SV
   | .inplaceSelf o => .cell o
   | .inplaceNone o => .cell o
 
-def foldStep (op : Op) (h0 : Heap) (sv : SV) (v : Val) : Except Err SV :=
-  (pyOp op h0 sv v).map foldRet
+def foldStep (f : OpFn) (h0 : Heap) (sv : SV) (v : Val) : Except Err SV :=
+  (f h0 sv v).map foldRet
 
-def mergeStep (op : Op) (h0 : Heap) (sv : SV) (v : Val) : Except Err SV :=
-  (pyOp op h0 sv v).map (mergeRet sv)
+def mergeStep (f : OpFn) (h0 : Heap) (sv : SV) (v : Val) : Except Err SV :=
+  (f h0 sv v).map (mergeRet sv)
 
 /-- `functools.reduce(step, items, init)` in the exception monad (= `List.foldlM`, see
     `refReduce_eq_foldlM`) -/
@@ -104,11 +112,11 @@ def withInit (h0 : Heap) (i : Init) (f : SV → Except Err SV) : RefRes :=
 /-- the reduction proper, given the items -/
 def refKind (h0 : Heap) (s : FoldSpec) (items : List Val) : RefRes :=
   match s.kind with
-  | .fold => withInit h0 s.init (refReduce (foldStep s.op h0) items)
+  | .fold => withInit h0 s.init (refReduce (foldStep (pyOp s.op) h0) items)
   | .flatten =>
     if s.lazy then .new (.tuple "chain" items)
-    else withInit h0 s.init (refReduce (foldStep s.op h0) items)
-  | .merge => withInit h0 s.init (refReduce (mergeStep s.op h0) items)
+    else withInit h0 s.init (refReduce (foldStep (pyOp s.op) h0) items)
+  | .merge => withInit h0 s.init (refReduce (mergeStep (pyOp s.op) h0) items)
 
 /-- one evaluation of a spec object, as a value -/
 def refSpec (env : Env) (h0 : Heap) (s : FoldSpec) (target : Val) : RefRes :=
@@ -132,7 +140,7 @@ def refFlattenFn (env : Env) (h0 : Heap) (sub : List Val) (init : InitArg) (leve
       | some ys =>
         match init with
         | .lazy => .new (.tuple "chain" ys)
-        | .init i => withInit h0 i (refReduce (foldStep .iadd h0) ys)
+        | .init i => withInit h0 i (refReduce (foldStep (pyOp .iadd) h0) ys)
 
 /-- the op a Merge ends up with -/
 def refMergeOp (h0 : Heap) (init : Init) (op : MergeOpArg) : Except Err Op :=
@@ -193,6 +201,11 @@ def lastPair : List (Val × Val) → Val → Option Val
     match lastPair ps k with
     | some v => some v
     | none => if pyKeyEq p.1 k then some p.2 else none
+
+/-- the value of the FIRST pair whose key equals `k` -/
+def firstPair : List (Val × Val) → Val → Option Val
+  | [], _ => none
+  | p :: ps, k => if pyKeyEq p.1 k then some p.2 else firstPair ps k
 
 /-! ### observations -/
 
@@ -310,14 +323,43 @@ def objNotChain : Obj → Bool
 def closedHeap (h : Heap) : Bool :=
   h.all (fun o => (cellVals o).all (Val.inb h.length) && objNotChain o)
 
+def Init.vals : Init → List Val
+  | .shared v => [v]
+  | .copyOf v => [v]
+  | _ => []
+
+def InitArg.vals : InitArg → List Val
+  | .lazy => []
+  | .init i => i.vals
+
 def progVals : Prog → List Val
-  | .fold s i _ => s ++ (match i with | .shared v => [v] | _ => [])
-  | .sum s i => s ++ (match i with | .shared v => [v] | _ => [])
+  | .fold s i _ => s ++ i.vals
+  | .sum s i => s ++ i.vals
   | .count => []
-  | .flatten s _ => s
-  | .merge s _ _ => s
-  | .flattenFn s _ _ => s
-  | .mergeFn s _ _ => s
+  | .flatten s i => s ++ i.vals
+  | .merge s i _ => s ++ i.vals
+  | .flattenFn s i _ => s ++ i.vals
+  | .mergeFn s i _ => s ++ i.vals
+
+/-- `lambda: type(OBJ)(OBJ)` is only built over a list / tuple / dict object (or an immediate) -/
+def Init.wf (h0 : Heap) : Init → Bool
+  | .copyOf (.ref a) => match h0[a]? with
+    | some o => copyable o
+    | none => false
+  | _ => true
+
+def InitArg.wf (h0 : Heap) : InitArg → Bool
+  | .lazy => true
+  | .init i => i.wf h0
+
+def Prog.initWF (h0 : Heap) : Prog → Bool
+  | .fold _ i _ => i.wf h0
+  | .sum _ i => i.wf h0
+  | .count => true
+  | .flatten _ i => i.wf h0
+  | .merge _ i _ => i.wf h0
+  | .flattenFn _ i _ => i.wf h0
+  | .mergeFn _ i _ => i.wf h0
 
 /-- well-formed case: the heap is closed and targets point into it -/
 def wfCase (h0 : Heap) (targets : List Val) : Bool :=
@@ -325,29 +367,55 @@ def wfCase (h0 : Heap) (targets : List Val) : Bool :=
 
 /-! ### the checker -/
 
-/-- The property evaluated on an observation (the model's or the implementation's):
-    no pre-existing object changed, and every evaluation shows exactly what the
+/-- The property evaluated on an observation (the model's or the implementation's), under ONE
+    handler table: no pre-existing object changed, and every evaluation shows exactly what the
     reference reduction computes — in particular a container result is a *new*
     object (never an input, never an earlier result). -/
 def checkC15 (env : Env) (h0 : Heap) (p : Prog) (targets : List Val) (obs : Obs) : Bool :=
   !p.initAllocates ||
   (obs.after == h0 && obs.results == targets.map (expectR env h0 p))
 
+/-- what the property expects a HISTORY to show: every evaluation reduces over the iteration the
+    registry's tables name at that moment (registrations made so far, no memo) -/
+def expectAll (H : Hier) (env : Env) (h0 : Heap) (p : Prog) : List Event → Reg → List R
+  | [], _ => []
+  | .eval t :: es, r => expectR (envOf H env r) h0 p t :: expectAll H env h0 p es r
+  | .register c e kw :: es, r => expectAll H env h0 p es (C13.register H r c e kw)
+
+/-- The property evaluated on the observation of a history against the registry `r0`. -/
+def checkC15R (H : Hier) (env : Env) (r0 : Reg) (h0 : Heap) (p : Prog) (events : List Event) (obs : Obs) : Bool :=
+  !p.initAllocates ||
+  (obs.after == h0 && obs.results == expectAll H env h0 p events r0)
+
 /-! ### well-formedness of the extracted facts -/
 
-def WF (env : Env) : Bool :=
-  regLookup env.iterReg "list" == some "iter" &&
-  regLookup env.iterReg "tuple" == some "iter" &&
-  regLookup env.iterReg "dict" == some "iter" &&
-  regLookup env.iterReg "OrderedDict" == some "iter" &&
-  regLookup env.iterReg "_AbstractIterable" == some "iter" &&
-  regLookup env.iterReg "object" == some "False" &&
-  env.absIterExcluded.contains "str" && env.absIterExcluded.contains "bytes" &&
+/-- the conversions of exceptions the theorems rely on -/
+def WFConv (env : Env) : Bool :=
   regLookup env.foldCatch "UnregisteredTarget" == some "FoldError" &&
+  regLookup env.iterCatch "Exception" == some "TypeError" &&
   env.excTable.isSub "FoldError" "GlomError" &&
-  !(env.excTable.isSub "TypeError" "GlomError") && !(env.excTable.isSub "ValueError" "GlomError") &&
-  -- an itertools.chain object is iterated through `_AbstractIterable`'s handler
-  iterHandlerOf env "chain" true == some "iter"
+  !(env.excTable.isSub "TypeError" "GlomError") && !(env.excTable.isSub "ValueError" "GlomError")
+
+/-- an itertools.chain object is iterated with `iter` (needed by `flatten(levels ≥ 2)` only) -/
+def chainIter (env : Env) : Bool := decide (env.lk "chain" = .ok "iter")
+
+def WF (env : Env) : Bool := WFConv env && chainIter env
+
+/-- does the program iterate chain objects of its own making? -/
+def Prog.usesChain : Prog → Bool
+  | .flattenFn _ _ l => decide (2 ≤ l)
+  | _ => false
+
+/-- along a history: whenever an evaluation happens, chain objects are iterated with `iter` -/
+def chainIterAlong (H : Hier) (env : Env) : List Event → Reg → Bool
+  | [], _ => true
+  | .eval _ :: es, r => chainIter (envOf H env r) && chainIterAlong H env es r
+  | .register c e kw :: es, r => chainIterAlong H env es (C13.register H r c e kw)
+
+/-- the documented default registrations, as answers of a handler table -/
+def defaultsOK (lk : String → Except IterErr String) : Bool :=
+  ["list", "tuple", "dict", "OrderedDict", "set", "frozenset"].all (fun c => decide (lk c = .ok "iter")) &&
+  ["object", "int", "bool", "float", "NoneType", "str", "bytes"].all (fun c => decide (lk c = .error .unregistered))
 
 /-- source-shape facts of glom/reduction.py the model's control flow is a transcription of -/
 structure SrcFacts where
@@ -358,6 +426,9 @@ structure SrcFacts where
   foldBodies : List (String × String × String)
   flattenFn : List (String × String)
   mergeFn : List (String × String)
+  targetIter : List (String × String)
+  absIterExcluded : List String
+  registerResetsMemo : Bool
 
 def has3 (t : List (String × String × String)) (a b c : String) : Bool := t.contains (a, b, c)
 
@@ -392,6 +463,14 @@ def WFSrc (f : SrcFacts) : Bool :=
     ("if levels == 0", "return target"), ("if levels < 0", "raise ValueError"),
     ("spec", "spec = (subspec,)"), ("spec", "spec += (Flatten(init='lazy'),) * (levels - 1)"),
     ("spec", "spec += (Flatten(init=init),)"), ("return", "return glom(target, spec)")] &&
-  f.mergeFn == [("spec", "spec = Merge(subspec, init, op)"), ("return", "return glom(target, spec)")]
+  f.mergeFn == [("spec", "spec = Merge(subspec, init, op)"), ("return", "return glom(target, spec)")] &&
+  -- target_iter: the lookup is OUTSIDE the try, the handler call inside, `except Exception` → TypeError
+  f.targetIter == [
+    ("assign", "iterate = scope[TargetRegistry].get_handler('iterate', target, path=scope[Path])"),
+    ("try", "iterator = iterate(target)"), ("except Exception", "raise TypeError"),
+    ("return", "return iterator")] &&
+  f.absIterExcluded.contains "str" && f.absIterExcluded.contains "bytes" &&
+  -- `register` ends with an unconditional reset of the lookup memo (the shape `C13.register` transcribes)
+  f.registerResetsMemo
 
 end Glom.C15
